@@ -92,7 +92,7 @@ def requirements(tier):
         "frame:orientation-None": 100 * k, "frame:orientation-QSW": 100 * k, "frame:orientation-TNW": 100 * k,
         "frame:origin": 900 * k, "frame:roundtrip": 900 * k, "frame:axes": 900 * k, "frame:moving": 120 * k, "frame:static": 20 * k,
         "mandv:impulsive": 1500 * k, "mandv:continuous": 1500 * k, "mandv:tag-QSW": 500 * k, "mandv:tag-TNW": 500 * k, "mandv:tag-None": 500 * k,
-        "mandv:hyperbolic": 300 * k, "mandv:check-tiling": 1000 * k,
+        "mandv:hyperbolic": 300 * k, "mandv:duration-multi-day": 200 * k, "mandv:duration-whole-days": 200 * k, "mandv:check-tiling": 1000 * k,
         "dkep:judged": 3000 * k, "dkep:da": 1000 * k, "dkep:di": 1000 * k, "dkep:dOmega": 1000 * k, "dkep:realised": 2000 * k,
         "dkep:aol": 1500 * k, "dkep:small-increment": 300 * k, "dkep:large-increment": 300 * k, "dkep:keplerian-man": 300 * k,
         "knum:impulse-in-span": 600 * k, "knum:impulse-on-grid": 60 * k, "knum:impulse-off-grid": 200 * k, "knum:impulse-start-eps": 50 * k,
@@ -449,7 +449,15 @@ def case_mandv(ctx, job, idx, rng, st):
             what = "ImpulsiveMan.dv"
             key = "C17/impulsive-dv-projection"
         else:
-            dur = timedelta(microseconds=rng.randint(1_000_000, 7_200_000_000))
+            # seconds .. hours, and (low-thrust) multi-day burns incl. whole numbers of days
+            dclass = rng.choice(["short", "short", "multi-day", "whole-days"])
+            if dclass == "short":
+                dur = timedelta(microseconds=rng.randint(1_000_000, 7_200_000_000))
+            elif dclass == "multi-day":
+                dur = timedelta(days=rng.randint(1, 20), microseconds=rng.randint(1, 86_399_999_999))
+            else:
+                dur = timedelta(days=rng.randint(1, 20))
+            ctx.count("mandv:duration-" + dclass)
             pos = rng.choice(["start", "stop", "median"])
             if rng.random() < 0.5:
                 man = ContinuousMan(epoch, dur, accel=vec.copy(), frame=tag, date_pos=pos)
